@@ -29,8 +29,8 @@ def build_s4(repo, log):
     return b if os.path.exists(b) else None
 
 
-def run_s4(s4, args, cwd=None, timeout=120):
-    p = subprocess.run([s4] + args, cwd=cwd, capture_output=True, timeout=timeout)
+def run_s4(s4, args, cwd=None, timeout=120, stdin=None):
+    p = subprocess.run([s4] + args, cwd=cwd, capture_output=True, timeout=timeout, input=stdin)
     return p.returncode, p.stdout, p.stderr
 
 
@@ -165,6 +165,19 @@ def r_c01_yearless_rollover_at_first_message(s4, repo, scratch):
     want = ['A1', 'B1', 'A2', 'A3', 'B2']
     return {'name': 'C01.yearless_rollover_at_first_message', 'input': a, 'how_made': 'three syslog lines without a year (Dec 31, Jan 1, Jan 1; file mtime 2024-01-01 12:00 UTC) and a log with explicit 2024-01-01 stamps',
             'cmd': '%s --color never -t +00:00 %s %s' % (s4, a, b), 'expected': ' '.join(want), 'observed': ' '.join(got), 'failed': got != want}
+
+
+def r_c01_stdin_paths_position(s4, repo, scratch):
+    """paths read from standard input ("-") are sources named at the position of the "-": ties go a, b (stdin), c"""
+    names = {}
+    for n in 'abc':
+        names[n] = os.path.join(scratch, 'c01_stdin_%s.log' % n)
+        open(names[n], 'w').write('2024-01-01T00:00:00+00:00 %s1\n2024-01-01T00:00:01+00:00 %s2\n' % (n.upper(), n.upper()))
+    rc, out, err = run_s4(s4, ['--color', 'never', names['a'], '-', names['c']], stdin=(names['b'] + '\n').encode())
+    got = [l.split()[1].decode() for l in out.split(b'\n') if l.strip()]
+    want = ['A1', 'B1', 'C1', 'A2', 'B2', 'C2']
+    return {'name': 'C01.stdin_paths_position', 'input': names['a'], 'how_made': 'three two-line logs with the same two instants; b.log is named on standard input',
+            'cmd': "printf '%s\\n' | %s --color never %s - %s" % (names['b'], s4, names['a'], names['c']), 'expected': ' '.join(want), 'observed': ' '.join(got), 'failed': got != want}
 
 
 def r_c03_evtx_window(s4, repo, scratch):
@@ -509,7 +522,7 @@ RECIPES = {
     'C02': [r_c02_continuation_at_block_boundary, r_c02_mixed_notation_first_message],
     'C04': [r_c04_instants, r_c04_fractions, r_c04_month_abbreviation_with_dot],
     'C10': [r_c03_evtx_window],
-    'C01': [r_c01_tie_order, r_c01_chronological, r_c01_submillisecond, r_c01_yearless_rollover_at_first_message],
+    'C01': [r_c01_tie_order, r_c01_chronological, r_c01_submillisecond, r_c01_yearless_rollover_at_first_message, r_c01_stdin_paths_position],
     'C06': [r_c01_tie_order, r_c01_chronological, r_c01_submillisecond],
     'C13': [r_c13_field_order_fixedstruct, r_c13_align_widest_printed, r_c13_evtx_prepend_file_only, r_c13_prependdate_lines_in_parts],
     'C03': [r_c03_journal_before_inclusive, r_c03_evtx_window, r_c03_yearless_tie_at_after],
